@@ -69,7 +69,12 @@ def _run_sym(unit, out, obligation_timeout_ms):
     I.obligation_timeout_ms = obligation_timeout_ms
     st = State()
     b = SymBuilder(I, st)
-    case = unit.fn(b)
+    try:
+      case = unit.fn(b)
+    except (AttributeError, ImportError, NameError) as e_setup:
+      # the contract's set-up names a function / class / attribute the code does not have (any more): the contract does
+      # not fit this code - undecided, neither a violation nor a crash of the checker
+      raise Unsupported("contract set-up does not fit this code: %s: %s" % (type(e_setup).__name__, e_setup))
     st = b.st
     I.loop_specs = dict(case.loops)
     I.call_specs = dict(case.calls)
